@@ -12,6 +12,9 @@ func IsM3U8(URL *models.URL) bool {
 
 func M3U8(URL *models.URL) (assets []*models.URL, err error) {
 	defer URL.RewindBody()
+	// grafov/m3u8 dereferences a nil segment when a URI line follows an EXT-X-KEY,
+	// EXT-X-MAP or custom tag without an EXTINF in between
+	defer recoverDecoderPanic("m3u8", &err)
 
 	var rawAssets ([]string)
 
